@@ -120,6 +120,55 @@ theorem ne_not_eq (a b : Num F) : ∃ r, relEq a b = .ok r ∧ relNe a b = .ok (
 theorem ne_symm (hs : ∀ x y : F, beq x y = beq y x) (a b : Num F) : relNe a b = relNe b a := by
   unfold relNe; rw [eq_symm hs a b]
 
+/-! ### order laws across kinds (corollaries of the value specifications) -/
+
+/-- `Lt` is a strict order on every family of real numbers that pairwise meet the hypotheses:
+asymmetric … -/
+theorem lt_asymm_rel (S : FloatSpec F) (a b : Num F) (h : RealPair S a b)
+    (hab : relLt a b = .ok true) : relLt b a = .ok false := by
+  obtain ⟨r, hr, hr'⟩ := lt_spec S a b h
+  obtain ⟨t, ht, ht'⟩ := lt_spec S b a h.symm
+  rw [hr] at hab
+  have hrt : r = true := by injection hab
+  have h1 := hr'.mp hrt
+  rw [ht]; congr 1
+  cases t with
+  | false => rfl
+  | true => exact absurd (ht'.mp rfl) (not_lt.mpr (le_of_lt h1))
+
+/-- … and transitive, across number kinds (Integer < Rational < RealDouble < Infinity chains included) -/
+theorem lt_trans_rel (S : FloatSpec F) (a b c : Num F) (hab : RealPair S a b) (hbc : RealPair S b c)
+    (hac : RealPair S a c) (h1 : relLt a b = .ok true) (h2 : relLt b c = .ok true) :
+    relLt a c = .ok true := by
+  obtain ⟨r1, e1, s1⟩ := lt_spec S a b hab
+  obtain ⟨r2, e2, s2⟩ := lt_spec S b c hbc
+  obtain ⟨r3, e3, s3⟩ := lt_spec S a c hac
+  rw [e1] at h1; rw [e2] at h2
+  have t1 : r1 = true := by injection h1
+  have t2 : r2 = true := by injection h2
+  rw [e3]; congr 1
+  exact s3.mpr (lt_trans (s1.mp t1) (s2.mp t2))
+
+/-- `Le` is total on such pairs: at least one of `Le(a, b)`, `Le(b, a)` is true -/
+theorem le_total_rel (S : FloatSpec F) (a b : Num F) (h : RealPair S a b) :
+    ∃ r t, relLe a b = .ok r ∧ relLe b a = .ok t ∧ (r || t) = true := by
+  obtain ⟨r, hr, hr'⟩ := le_spec S a b h
+  obtain ⟨t, ht, ht'⟩ := le_spec S b a h.symm
+  refine ⟨r, t, hr, ht, ?_⟩
+  rcases le_total (rv S a) (rv S b) with hle | hle
+  · rw [hr'.mpr hle]; rfl
+  · rw [ht'.mpr hle]; simp
+
+/-- `Le` both ways means numerically equal values (antisymmetry, up to value) -/
+theorem le_antisymm_rel (S : FloatSpec F) (a b : Num F) (h : RealPair S a b)
+    (h1 : relLe a b = .ok true) (h2 : relLe b a = .ok true) : rv S a = rv S b := by
+  obtain ⟨r, hr, hr'⟩ := le_spec S a b h
+  obtain ⟨t, ht, ht'⟩ := le_spec S b a h.symm
+  rw [hr] at h1; rw [ht] at h2
+  have t1 : r = true := by injection h1
+  have t2 : t = true := by injection h2
+  exact le_antisymm (hr'.mp t1) (ht'.mp t2)
+
 /-- complex, nan and zoo operands: the order relations throw (SymEngineException) -/
 theorem order_guard (a b : Num F) (h : relGuard a b = true) :
     relLt a b = .error .runtime ∧ relLe a b = .error .runtime := by
